@@ -22,7 +22,7 @@ CHECKS = {
  "C12": (True, MC, "exhaustive exploration of environment answers (hash keys via an in-binary getrandom, directory order via an in-binary readdir64), registration orders and call histories on the real library",
          "For every accepted repository input and generated WSDLs with 2-4 operations: 256 (thorough 4096) hash seeds x all registration orders of the file set x call histories R.W, R.W.W, R.R, R.R.R, RW.RW on one input object x all directory enumeration orders through utils::read_input_file_and_xsd_files_at_path, plus genuinely fresh processes; every output must be byte-identical to the canonical one. A same-seed-twice self-test guards the harness's own determinism.",
          "Hash seeds are a finite sweep (the evidence reports how many of the k! orders of a k-key canary map they realise: all for k<=3, 22-24 of 24 for k=4). The interposers rely on std binding getrandom/readdir64 to the symbols defined in the harness executable (checked by a self-test on every run).", "4/C12"),
- "C13": (True, MC, "deviation-bounded exhaustive mutation of valid documents plus all short token documents, each run on the real library in supervised worker processes",
+ "C13": (True, MC, "deviation-bounded exhaustive mutation of valid documents plus all short token documents (complete up to 3/4 tokens, well-formed ones up to 5/6), each run on the real library in supervised worker processes",
          "Every single structural mutation (delete/duplicate/move/swap element, delete/empty/alter attribute, retarget every QName attribute to every declared name, to itself, to an undeclared prefix, to a dangling name, rename to an existing name, truncate at every tag boundary, replace the root) of 19 seed inputs (27 k cases), all token documents of <=3 (thorough 4) tokens over an 11-token XSD alphabet and raw non-XML texts are run through read_xml/write_xml; the only admissible outcomes are Ok and Err within the time limit: a panic, a death by signal (stack overflow) or a timeout is a violation, recorded with the panic location. Thorough adds all mutation pairs of the generated seeds and signature-reduced mutations of the large inputs.",
          "'All UTF-8 strings' is unbounded; decided is the <=1 (thorough <=2) deviation neighbourhood of the seeds and the short token documents. Time limit 10 s + 1 s per 100 kB. One open known finding (20000-deep nesting overflows roxmltree's recursive tokenizer).", "4/C13"),
  "C17": (True, FE, "complete enumeration of the CLI configuration x failure-stage matrix, one real process run per row",
@@ -32,7 +32,7 @@ CHECKS = {
          "From the two-file seed every single member production (element x 32 types x 6 occurrences x {sequence, nested+sibling, choice}; sequence occurrence x 32 types; attribute x 29 simple types x use; ref x 5 global-element kinds x 6 occurrences) and 10 component productions is applied (854 states; thorough: all admissible ordered pairs over a reduced alphabet, about 3 k states), the real generator is run and the syn-extracted item model must equal the reference API model: one public PascalCase struct per component in the module of its namespace, exactly the declared members in order, wrapper T/Option/Vec, element type = documented primitive or the struct of the named type (through aliases), legal distinct snake_case fields, nothing extra.",
          "The reference model is hand-written from the XSD rules restricted to DESIGN section 2. Depth-2 states behind a violating depth-1 prefix are pruned (counted in the evidence). One open known finding (particles after a nested sequence are dropped).", "4/C02"),
  "C08": (True, MC, "exhaustive enumeration of extension chains/fans over two files on the real generator, syn item model compared with the reference member lists",
-         "All extension chains of depth 1 (files x declaration order x 5x5 own contents, with fan-out and a forward-lookup decoy) and depth 2 (thorough: depth 4) are generated; each derived struct's member list must equal base members (recursively) then own elements then own attributes, and every element member's prefix must be bound, in the struct's own namespaces map, to the namespace of the schema that declared it.",
+         "All extension chains of depth 1 (files x declaration order x 5x5 own contents, with fan-out and a forward-lookup decoy) and depth 2 to 4 (both tiers since round 4; plus C09's same-name families: a base that shares its name with a global element, in every declaration order) are generated; each derived struct's member list must equal base members (recursively) then own elements then own attributes, and every element member's prefix must be bound, in the struct's own namespaces map, to the namespace of the schema that declared it.",
          "Contents beyond depth 1 are restricted to three kinds; one open known finding (types of a file imported cyclically whose base lives in the importer are dropped).", "4/C08"),
  "C01": (True, MC, "breadth-first exploration of schema/WSDL productions on the real generator; rustc (edition 2024, six documented crates only) as the oracle on every state",
          "From the XSD and WSDL seeds every single production (member kinds, every builtin, 12 names incl. keywords x 5 naming positions, multi-file import graphs with 3-4 namespaces, operation name styles, one-way operations, 1-3 header parts per direction, explicit parts, imported-namespace elements, 2-3 operations, service name styles, addresses; about 270 states; thorough: all pairs of WSDL productions and the depth-2 member pairs, about 2.6 k states) is printed, run through the real generator, parsed with syn and compiled by rustc as a #[path] module of a package whose manifest lists exactly yaserde, yaserde_derive, xml-rs, log, reqwest, tokio. Any diagnostic of level error inside the emitted file is a violation, attributed to the state.",
@@ -57,7 +57,7 @@ CHECKS = {
          "The verdict per program is rustc's; a probe that does not fit a refactored helper signature yields no verdict (recorded in the evidence), never an alarm.", "4/C18"),
  "C07": (True, MC, "exploration of facet configurations x positions x placements of violating / boundary values, executed on the compiled generated client against a loopback listener",
          "For each facet configuration (every facet kind on string/int/long, pairs, simple-type derivation chains of depth 2 and 3) a WSDL is generated in which the restricted type occurs at 9 positions (direct, optional, first and second item of a repeated member, nested one and two levels, attribute, member inherited through a complex extension, header part). Every placement (all boundary-valid; each position x each violating value; pairs; a triple) is built as a complete request envelope; check_restrictions(None) must fail exactly when some placed value violates some facet of its type's derivation chain. For all-valid and single placements the client method is called: a violating request must return the restriction error with zero connections accepted by the listener, a valid one exactly one connection.",
-         "One violating value alphabet per configuration; quick tier uses neighbouring pairs only. The restriction trait and method are discovered through an impl in the emitted file.", "4/C07"),
+         "One violating value alphabet per configuration; all position pairs in both tiers (since round 4). The restriction trait and method are discovered through an impl in the emitted file.", "4/C07"),
  "C10": (True, MC, "exhaustive enumeration of adversarial namespace-URI sets x ways of declaring them x import orders on the real generator; bijections read from the syn item model",
          "11 adversarial URIs (equal last segments, equal three-letter abbreviations, dots and dashes, URN, upper case, trailing slash, leading digit, 'xml', non-ASCII): every single URI, every ordered pair x 3 ways of introducing the second namespace (root xmlns, nested xmlns on the referring component, targetNamespace of an imported file only), ordered triples x both import orders, families of 2..12 URIs with one abbreviation, two 6-sets (quick 490 states, thorough about 1.9 k). In each output the relation prefix -> URI over all namespaces maps and module -> URI over all structs must be bijections, prefixes must be NCNames, no module may hold two items of one name, every component must sit in its namespace's module and every member prefix must be bound to the member's declaring namespace; a subset is compiled.",
          "URIs are drawn from a fixed adversarial alphabet; sets of more than three URIs only for the equal-abbreviation families and two 6-sets.", "4/C10"),
